@@ -202,6 +202,8 @@ int create_frame_op(World &w, const Op &op) {
     catch (const std::exception &) { return 1; }
     if (invalid || !df) return 0;
     FrameModel m; m.cols = cols;
+    // two frames in three are given a few rows at once (a frame without rows lets every row, cell and column operation pass it by)
+    if (r.chance(2, 3)) { size_t n0 = (size_t) r.range(1, 5); try { df.rows(n0); std::vector<std::string> def; for (auto &c : m.cols) def.push_back(default_cell(c.dtype)); m.cells.resize(n0, def); } catch (const std::exception &) { return 1; } }
     if (w.live.size() < 48) { Kept k; k.kind = 2; k.id = df.id(); k.session = w.session; k.frame = df; w.live["2:" + k.id] = k; }   // the creating handle lives on
     w.frame[df.id()] = m;
     w.cnt.inc(ncols <= 8 ? "frame.create.cols" + std::to_string(ncols) : ncols <= 32 ? "frame.create.cols9-32" : "frame.create.cols33-70");
@@ -214,6 +216,8 @@ int World::exec_frame(const Op &op) {
     const int *a = op.a;
     Rng r(op.sub);
     DataFrame df = frame_at(a[0], a[1]);
+    // frames are rare: when the addressed block has none, the next block that has one is taken (row, cell and column operations only)
+    if (!df) { ndsize_t nb = f.blockCount(); for (ndsize_t k = 1; k < nb && !df; k++) df = frame_at(a[0] + (int) k, a[1]); }
     if (!df) return 2;
     std::string id = df.id();
     auto it = frame.find(id);
@@ -269,14 +273,31 @@ int World::exec_frame(const Op &op) {
             }
             // the cells reach writeCells the way programs build such lists: appended, or assigned into a pre-sized vector from
             // temporaries, reversed, swapped
+            // one cell of the wrong type at a random position among good ones (mismatching element type: may be refused - then nothing may
+            // have been written, the other cells of the list included - or accepted, then nothing is predicted)
+            int invalid_cell = ((unsigned) a[2]) % 16;
+            if (lane_prop == "C08" && invalid_cell >= 3 && invalid_cell <= 6) invalid_cell -= 2;      // where rejections are the subject: six write-cell calls in sixteen carry a wrong cell
+            bool bad_cell = false;
+            if ((invalid_cell == 1 || invalid_cell == 2) && !cells.empty()) {
+                // the list is filled up with further good cells first, so that the wrong one has company
+                for (size_t c = 0; c < ncols && cells.size() < 4; c++) { if (!used.insert(c).second) continue; Variant x = rand_variant(r, m.cols[c].dtype); cells.push_back(r.chance(1, 2) ? Cell((unsigned) c, x) : Cell(m.cols[c].name, x)); upd.push_back(std::make_pair(c, variant_str(x))); }
+                size_t at = r.below(cells.size());
+                size_t c = upd[at].first;
+                bool to_string = m.cols[c].dtype != DataType::String && (invalid_cell == 1 || true);
+                Variant wrong = to_string ? Variant(std::string("not a number")) : rand_variant(r, other_type(r, DataType::String));
+                if (m.cols[c].dtype != DataType::String && invalid_cell == 2) wrong = rand_variant(r, other_type(r, m.cols[c].dtype));
+                cells[at] = r.chance(1, 2) ? Cell((unsigned) c, wrong) : Cell(m.cols[c].name, wrong);
+                bad_cell = true; arg_class += ",wrong-cell-type";
+            }
             int build = r.range(0, 3);
             if (build == 1 && cells.size() > 1) { std::reverse(cells.begin(), cells.end()); arg_class += ",reversed"; }
             else if (build == 2) { std::vector<Cell> filled(cells.size()); for (size_t i = 0; i < cells.size(); i++) filled[i] = Cell(cells[i]); cells.clear(); cells.resize(filled.size()); for (size_t i = 0; i < filled.size(); i++) cells[i] = std::move(filled[i]); arg_class += ",assigned"; }
             else if (build == 3 && cells.size() > 1) { std::swap(cells[0], cells[cells.size() - 1]); arg_class += ",swapped"; }
-            must_succeed = "C15.cell";
+            if (!bad_cell) must_succeed = "C15.cell";
             if (cells.size() == 1 && r.chance(1, 2)) { size_t c = upd[0].first; Variant x = cells[0]; df.writeCell(row, (unsigned) c, x); arg_class += ",writeCell"; }
             else { df.writeCells(row, cells); arg_class += ",writeCells"; }
             must_succeed.clear();
+            if (bad_cell) { frame.erase(id); return 0; }      // accepted out-of-contract input: not predicted
             for (auto &u : upd) m.cells[row][u.first] = u.second;
             cnt.inc("frame.write_cell");
             return 0;
@@ -360,7 +381,12 @@ int World::exec_frame(const Op &op) {
             arg_class += ",dtype=" + dtype_name(dt) + (resize ? ",resize" : ",fixed");
             if (dt == DataType::String) for (size_t i = 0; i < n && off + i < nrows; i++) if (m.cells[off + i][c] == "s:0''") { arg_class += ",unwritten-string"; break; }
             std::vector<std::string> got;
-#define RCOL(T) { std::vector<T> v(resize ? (size_t) r.below(3) : n, sentinel_of((T *) nullptr)); if (by_index) df.readColumn((unsigned) c, v, resize, off); else df.readColumn(m.cols[c].name, v, resize, off); for (auto &x : v) got.push_back(variant_str(Variant(x))); break; }
+            // all four overloads: by name / by index, with and without an explicit count
+            bool with_count = r.chance(1, 2) && n > 0;
+            if (with_count) arg_class += ",explicit-count";
+#define RCOL(T) { std::vector<T> v(resize ? (size_t) r.below(3) : n, sentinel_of((T *) nullptr)); \
+                if (with_count) { if (by_index) df.readColumn((unsigned) c, v, (ndsize_t) n, resize, (ndsize_t) off); else df.readColumn(m.cols[c].name, v, (ndsize_t) n, resize, (ndsize_t) off); } \
+                else if (by_index) df.readColumn((unsigned) c, v, resize, off); else df.readColumn(m.cols[c].name, v, resize, off); for (auto &x : v) got.push_back(variant_str(Variant(x))); break; }
             switch (dt) {
                 case DataType::Int32: RCOL(int32_t) case DataType::UInt32: RCOL(uint32_t) case DataType::Int64: RCOL(int64_t)
                 case DataType::UInt64: RCOL(uint64_t) case DataType::Double: RCOL(double) case DataType::String: RCOL(std::string)
